@@ -422,9 +422,10 @@ Proof.
   destruct ((cmd =? CMD_RECALIBRATE) && _ && negb (su =? 0)); [|contradiction]. apply good_matching; assumption.
 Qed.
 
-Lemma good_apply_config b c bud cl : wf_board b -> In cl (apply_config_mw true b c bud) -> good b c cl.
+Lemma good_apply_cells b c bud gb cl : wf_board b -> gb <= INPUT_MAX ->
+  In cl (apply_config_cells b c bud true 2 1 gb 2 1) -> good b c cl.
 Proof.
-  intros W Hin. unfold apply_config_mw in Hin. cbn [negb orb] in Hin.
+  intros W Hgb Hin. unfold apply_config_cells in Hin. cbn [negb orb] in Hin.
   destruct ((0 <=? c) && (c <? RS_MAX) && rs_present b c) eqn:E; [|contradiction].
   apply andb_prop in E. destruct E as [E Hp]. apply andb_prop in E. destruct E as [E1 E2]. apply Z.leb_le in E1. apply Z.ltb_lt in E2.
   facts. rewrite Hp in Hin.
@@ -433,8 +434,23 @@ Proof.
   apply in_app_or in Hin. destruct Hin as [Hin|Hin]; [|apply good_rs_all; assumption].
   destruct ((0 <? bud) && (bud <? 3)); [|contradiction].
   destruct Hin as [<-|Hin]; [split; [unfold cell_ok; cbn [fst snd]; unfold N_GLOBAL in *; lia|reflexivity]|].
-  destruct (2 * c + 1 <? INPUT_MAX) eqn:Ei; [|contradiction]. apply Z.ltb_lt in Ei.
+  destruct (2 * c + 1 <? gb) eqn:Ei; [|contradiction]. apply Z.ltb_lt in Ei.
   destruct Hin as [<-|[<-|[]]]; (split; [unfold cell_ok; cbn [fst snd]; lia|]); right; split; auto.
+Qed.
+
+(* the guards generated from the working tree: existence test present, bound 2c+1 < gb <= INPUT_MAX_COUNT, indices 2c, 2c+1 —
+   for the roller-shutter function and, separately, for its facade-blind twin *)
+Lemma guard_facts kind : kind = 1 \/ kind = 2 -> exists gb, guard_of true kind = [kind; 1; 2; 1; gb; 2; 1] /\ gb <= INPUT_MAX.
+Proof.
+  intros [->| ->]; vm_compute; eexists; (split; [reflexivity|discriminate]).
+Qed.
+
+Lemma good_apply_config b kind c bud cl : wf_board b -> kind = 1 \/ kind = 2 ->
+  In cl (apply_config_mw true b kind c bud) -> good b c cl.
+Proof.
+  intros W Hk Hin. destruct (guard_facts kind Hk) as (gb & Hg & Hgb).
+  unfold apply_config_mw in Hin. rewrite Hg in Hin. cbv iota beta in Hin.
+  change (1 =? 1) with true in Hin. eapply good_apply_cells; eauto.
 Qed.
 
 Lemma good_config_result b c func ctype csize b1 b2 cl : wf_board b -> 0 <= c < CHANNEL_MAX ->
@@ -450,10 +466,10 @@ Proof.
     destruct Hin as [<-|[]]. split; [unfold cell_ok; cbn [fst snd]; lia|reflexivity]. }
   destruct (is_rs_func func).
   { destruct ((ctype =? 0) && (RSC_SIZE <=? csize)); [|contradiction].
-    destruct Hin as [<-|Hin]; [split; [unfold cell_ok; cbn [fst snd]; lia|reflexivity]|apply (good_apply_config b c b1); assumption]. }
+    destruct Hin as [<-|Hin]; [split; [unfold cell_ok; cbn [fst snd]; lia|reflexivity]|apply (good_apply_config b 1 c b1); auto]. }
   destruct (is_fb_func func).
   { destruct ((ctype =? 0) && (FBC_SIZE <=? csize)); [|contradiction].
-    destruct Hin as [<-|Hin]; [split; [unfold cell_ok; cbn [fst snd]; lia|reflexivity]|apply (good_apply_config b c b2); assumption]. }
+    destruct Hin as [<-|Hin]; [split; [unfold cell_ok; cbn [fst snd]; lia|reflexivity]|apply (good_apply_config b 2 c b2); auto]. }
   destruct (func =? FNC_ACTIONTRIGGER); [|contradiction].
   destruct ((ctype =? 0) && (csize =? ATC_SIZE)); [|contradiction].
   apply in_map_iff in Hin. destruct Hin as (i & <- & Hf). apply filter_In in Hf. destruct Hf as [Hs He].
